@@ -204,3 +204,57 @@ def param_default(func, name):
 def is_const(node, value):
     return isinstance(node, ast.Constant) and node.value is value or \
         (isinstance(node, ast.Constant) and not isinstance(value, bool) and node.value == value and type(node.value) is type(value))
+
+
+def dominating_facts(func, astnode):
+    """Atomic test outcomes every entry->node path must have taken: [(test_ast, polarity)]."""
+    c = cfg_of(func)
+    nodes = c.nodes_containing(astnode)
+    ids = {n.id for n in nodes}
+    facts = []
+    for t in c.nodes:
+        if t.kind != 'test':
+            continue
+        for k in ('T', 'F'):
+            p = c.reach([c.entry], lambda n: n.id in ids,
+                        block_edge=lambda n, kk, m, t=t, k=k: n is t and kk == k)
+            if p is None:
+                # blocking (t,k) cuts every path: so every path takes (t,k)... unless the node
+                # is unreachable anyway
+                if c.reach([c.entry], lambda n: n.id in ids) is not None:
+                    facts.append((t.ast, k == 'T'))
+    return facts
+
+
+def paired_correlated(func, acquire_stmt, is_release, include_exc=True):
+    """PAIR with correlated conditions: tests that are textually the same as a test that
+    guards the acquire (and whose names are not re-assigned in the function) are assumed to
+    evaluate the same way later (`if x is not None: acquire ... finally: if x is not None: release`)."""
+    c = cfg_of(func)
+    srcs = c.nodes_of(acquire_stmt)
+    if not srcs:
+        raise AnchorError('no CFG node for acquire %s' % short(acquire_stmt))
+    facts = dominating_facts(func, acquire_stmt)
+    assigned = set()
+    for n in own_nodes(func):
+        if isinstance(n, ast.Name) and isinstance(n.ctx, (ast.Store, ast.Del)):
+            assigned.add(n.id)
+    known = {}
+    for e, pol in facts:
+        names = {x.id for x in ast.walk(e) if isinstance(x, ast.Name)}
+        if not (names & assigned) and not any(isinstance(x, ast.Call) for x in ast.walk(e)):
+            known[norm(e)] = pol
+    targets = {c.exit.id}
+    if include_exc:
+        targets.add(c.raise_exit.id)
+
+    def block_edge(n, k, m):
+        if n in srcs and k == 'exc':
+            return True
+        if n.kind == 'test' and k in ('T', 'F'):
+            v = known.get(norm(n.ast))
+            if v is not None and v != (k == 'T'):
+                return True
+        return False
+    p = c.reach(srcs, lambda n: n.id in targets, block_node=is_release, block_edge=block_edge)
+    return None if p is None else c.describe(p)
